@@ -271,6 +271,13 @@ func (c *RollingFileAppender) createFile(formatTime string) (string, *os.File, e
 
 // clearExpiredFiles removes log files older than MaxAge.
 func (c *RollingFileAppender) clearExpiredFiles() {
+	// time.Duration counts nanoseconds in an int64: for more hours than this
+	// the product below wraps around (and would put the cut-off in the
+	// future); no file can be that old, so there is nothing to remove.
+	const maxHours = (1<<63 - 1) / int64(time.Hour)
+	if int64(c.MaxAge) > maxHours {
+		return
+	}
 	expiration := time.Now().Add(-time.Duration(c.MaxAge) * time.Hour)
 	entries, _ := os.ReadDir(c.FileDir)
 	for _, entry := range entries {
